@@ -97,6 +97,26 @@ pub trait GenericLayoutTrait {
     fn get_num_columns_second(public_input: &PublicInput) -> Option<usize>;
 }
 
+// Checks that the `length` main-page cells starting at position `offset` sit at the consecutive
+// addresses `start_address`, `start_address + 1`, ... (the reference verifier's extract_range).
+pub fn ensure_consecutive_addresses(
+    main_page: &[crate::types::AddrValue],
+    offset: usize,
+    start_address: Felt,
+    length: usize,
+) -> Result<(), PublicInputError> {
+    let end = offset.checked_add(length).ok_or(PublicInputError::MainPageInvalid)?;
+    let cells = main_page.get(offset..end).ok_or(PublicInputError::MainPageInvalid)?;
+    let mut address = start_address;
+    for cell in cells {
+        if cell.address != address {
+            return Err(PublicInputError::MainPageInvalid);
+        }
+        address += Felt::ONE;
+    }
+    Ok(())
+}
+
 pub fn safe_div(value: Felt, divisor: Felt) -> Result<Felt, FeltIsZeroError> {
     Ok(value.floor_div(&NonZeroFelt::try_from(divisor)?))
 }
@@ -165,6 +185,9 @@ pub enum PublicInputError {
 
     #[error("invalid number of segments")]
     InvalidSegments,
+
+    #[error("main page cells are not at the expected addresses")]
+    MainPageInvalid,
 
     #[error("dynamic params missing")]
     DynamicParamsMissing,
@@ -263,6 +286,9 @@ pub enum PublicInputError {
 
     #[error("invalid number of segments")]
     InvalidSegments,
+
+    #[error("main page cells are not at the expected addresses")]
+    MainPageInvalid,
 
     #[error("dynamic params missing")]
     DynamicParamsMissing,
